@@ -230,7 +230,7 @@ func c09CheckCmp(w *mon.W, a, b *c09Enc) bool {
 		}
 	} else {
 		w.State["c09n"] = n + 1
-		if n&3 == 2 && n&31 == 2 { // and now and then in memory that cannot be written (ro.go)
+		if n&1023 == 2 { // and now and then in memory that cannot be written (ro.go; rarely: 16 workers changing page protections serialise on the address-space lock)
 			roReset(w)
 			ra, rb := roBytes(w, a.enc), roBytes(w, b.enc)
 			if rel, ok := roSeal(w); ok {
@@ -302,7 +302,9 @@ func c09CheckUpto(w *mon.W, a string, b *c09Enc) bool {
 		return false
 	}
 	// both arguments (the plain string's bytes too) in memory that cannot be written (ro.go)
-	if (len(a)+nb)%4 == 1 {
+	roTurn, _ := w.State["c09ro"].(int)
+	w.State["c09ro"] = roTurn + 1
+	if roTurn&127 == 5 { // (rarely: 16 workers changing page protections serialise on the address-space lock)
 		roReset(w)
 		ra, rb, rs := roBytes(w, ab), roBytes(w, b.enc), roStr(w, a)
 		if rel, ok := roSeal(w); ok {
